@@ -93,7 +93,17 @@ static inline std::uint64_t getticks() {
   #error "Unsupported architecture"
 #endif
 
+#ifdef XENIUM_VERIF
+} // namespace xenium::utils
+// verification hook: the slot start index becomes a recorded, replayable decision of the harness
+extern "C" std::uint64_t xenium_verif_random();
+namespace xenium::utils {
+#endif
+
 inline std::uint64_t random() {
+#ifdef XENIUM_VERIF
+  return xenium_verif_random();
+#endif
   return getticks() >> 4;
 }
 } // namespace xenium::utils
